@@ -267,7 +267,7 @@ class Interp:
             raise Unsupported('arity mismatch calling %s' % fn['name'])
         for p, a in zip(params, args):
             st.mem[('L', depth, p['id'])] = a
-        st.ev('enter', node, name=fn['name'])
+        st.ev('enter', node, name=fn['name'], args=list(args))
         outs = []
         for s, sig in self.exec_stmt(fn['_body'], st):
             rv = None
@@ -777,6 +777,22 @@ class Interp:
                 if any(f.iv[a] != v0 for f in abst[1:]):
                     vary.append(a)
             dn = sorted(set(diff.values()))
+            # atoms related by a stored fact to the value a location had in some state
+            for s_, m_ in zip(states, mems):
+                for k, name in diff.items():
+                    va = set(a for a, _ in m_[k].terms)
+                    if not va:
+                        continue
+                    rel = set()
+                    for key in s_.facts.ub:
+                        if len(key) <= 3 and any(a in va for a, _ in key):
+                            rel.update(a for a, _ in key if a not in va)
+                    for r in sorted(rel)[:6]:
+                        if r in dn or r.endswith("'"):
+                            continue
+                        l = Lin.atom(name + "'").sub(Lin.atom(r))
+                        cands.add(l.terms)
+                        cands.add(l.scale(-1).terms)
             if len(vary) <= 6:
                 for name in dn:
                     for y in vary:
@@ -1420,6 +1436,10 @@ class Interp:
             f = s.copy()
             out = []
             self.stats['forks'] += 1
+            if any(a_.endswith('.data_size') for a_, _ in form.terms):
+                # a comparison against a variable's capacity: remembered for the tightness rules
+                s.ev('cap_cmp', n, form=form, bound=c, op=op)
+                f.ev('cap_cmp', n, form=form.scale(-1), bound=-c - 1, op='!' + op)
             if s.facts.assume_le(form, c) and self.model.refined(s, form, self) is not False:
                 out.append((s, Lin.c(1)))
             if f.facts.assume_le(form.scale(-1), -c - 1) and self.model.refined(f, form, self) is not False:
@@ -1698,8 +1718,8 @@ class Interp:
         if t == 'loc':
             loc = lv[1]
             if loc[0] == 'S':
-                s.ev('st', n, loc=loc, val=v)
-                self.model.on_store_field(loc, v, s, self, n)
+                e = s.ev('st', n, loc=loc, val=v)
+                self.model.on_store_field(loc, v, s, self, n, e)
             s.mem[loc] = v
             return [s]
         if t == 'elem':
